@@ -67,7 +67,7 @@ def run(tier):
     rng = random.Random(seed())
     tb = lexsmt.LexTables()
     lm = lexsmt.LexModel(tb, N)
-    from sqlparse import lexer as LX, utils as U
+    from sqlparse import lexer as LX, utils as U, tokens as T_
     chk.functions += [src_ref(LX.Lexer.get_tokens), src_ref(LX.Lexer.is_keyword), src_ref(U.consume),
                       f'keywords.SQL_REGEX ({tb.R} compiled rules read from a fresh Lexer().default_initialization())']
     chk.bounds = dict(text_len_max=N, alphabet=tb.describe(), encode_s=round(lm.t_encode, 2),
@@ -159,6 +159,68 @@ def run(tier):
     s.pop()
     chk.obligation('L1b tokens of the reference loop partition [0,L) for every text (L<=8 in quick)', 'E1 lexsmt/z3', 1,
                    1 if res == z3.unsat else 0, time.time() - t0)
+
+    # ---- L5: rule actions the model does not interpret (anything but a token type / PROCESS_AS_KEYWORD) ----
+    # E1 assumes that the value emitted for a match is m.group().  A rule whose action is of another kind
+    # (e.g. a tuple of types emitting one token per capture group) is decided separately: the solver is asked
+    # for a text on which that rule is selected at a token start while a top-level part of its pattern that
+    # lies outside every capture group consumes at least one character; the witness is replayed on the real
+    # tokenizer.
+    import sre_constants as sc
+    t0 = time.time()
+    nq = nd = 0
+    odd = [r for r in range(tb.R) if not (isinstance(tb.rules[r][2], T_._TokenType) or tb.rules[r][2] is tb.KW)]
+    for r in odd:
+        rx = tb.rules[r][0]
+        parsed = list(tb.progs[r].parsed)
+        variants = [('rule selected', None)]
+        for k, (op, av) in enumerate(parsed):
+            if op in (sc.AT, sc.ASSERT, sc.ASSERT_NOT) or (op is sc.SUBPATTERN and av[0] is not None):
+                continue
+            if op in (sc.MAX_REPEAT, sc.MIN_REPEAT):
+                item = (op, (max(av[0], 1), av[1], av[2]))
+            else:
+                item = (op, av)
+            variants.append((f'top-level item {k} outside the capture groups consumes a character', (k, item)))
+        for what, var in variants:
+            nq += 1
+            found = None
+            for p in range(N):
+                m = lm.m[p][r]
+                if m is lexsmt.FAIL:
+                    continue
+                s.push()
+                s.add(lm.tok_at(p), lm.tokRule[p] == r)
+                if var is not None:
+                    k, item = var
+                    seq = parsed[:k] + [item] + parsed[k + 1:]
+                    prog = lexsmt.Prog()
+                    lexsmt.compile_seq(prog, seq, tb.ptab, lexsmt.find_refs(seq, set()))
+                    prog.emit('MATCH')
+                    vm = lexsmt.Matcher(prog, lm.t, lm).run(0, p)
+                    if vm is lexsmt.FAIL:
+                        s.pop()
+                        continue
+                    s.add(vm[0], vm[1] == m[1])
+                res = s.check()
+                if res == z3.sat:
+                    found = lm.t.value(s.model())
+                s.pop()
+                if found is not None:
+                    break
+            if found is None:
+                nd += 1
+                continue
+            why = real_lossless_failure(found)
+            if why:
+                chk.report(f'rule{r}:action-loses-text', f'rule {rx!r} with action {tb.rules[r][2]!r} ({what}) on {found!r}: {why}',
+                           replay_dict(found, why))
+            elif var is None:
+                nd += 1
+            else:
+                chk.fail_inconclusive(f'L5: rule {rx!r} has an action kind the model does not interpret; witness {found!r} ({what}) is lossless on the real tokenizer, other texts are not decided')
+    chk.obligation('L5 rules whose action is neither a token type nor PROCESS_AS_KEYWORD emit the whole match (none on the pinned tree)',
+                   'E1 lexsmt/z3 + replay', nq, nd, time.time() - t0, rules_with_other_actions=[tb.rules[r][0] for r in odd])
 
     # ---- L4: translator validation + direct observation on the corpus ---------------------------
     strs = corpus.chunks(corpus.test_strings(), N, limit=250 if tier == 'quick' else 1200, rng=rng)
